@@ -143,6 +143,8 @@ def run_module(unit, path, module, seed, use_cache=True):
             c = json.load(open(cfile))
             res = c['res']
             fails, und, hard = runverus.classify(unit, res, path)
+            if c.get('fails_keys') is not None:
+                fails = [r for r in fails if ob_key(unit, r) in set(c['fails_keys'])]
             return dict(res=res, fails=fails, undecided=und, hard=hard, unstable=c.get('unstable', []),
                         wall=c.get('wall', 0.0), cached=True)
         except Exception:
@@ -162,9 +164,41 @@ def run_module(unit, path, module, seed, use_cache=True):
             if not u2 and not h2:
                 res, fails, und, hard = res2, f2, u2, h2
                 break
+    # a definite failure must REPRODUCE before it counts: every function with a failing obligation is verified once more on
+    # its own (fresh solver instance, 4x resource limit, another random seed).  Obligations that are then proved are proved
+    # (a proof is a proof); the instability is recorded.  Failures outside woven functions (lemmas) are kept as they are.
+    if fails and not hard:
+        by_fn = {}
+        for rec in fails:
+            f = rec.get('fn')
+            if f is not None:
+                by_fn.setdefault(f.addr, f)
+        confirmed_keys, rechecked = set(), set()
+        for addr, f in by_fn.items():
+            res2 = runverus.run_verus_path(path, rlimit=120, module=module,
+                                           extra=['--verify-function', verus_fn_name(addr), '--smt-option', 'smt.random_seed=%d' % (seed % 1000 + 13)])
+            f2, u2, h2 = runverus.classify(unit, res2, path)
+            vr2 = ((res2.get('summary') or {}).get('verification-results') or {})
+            if h2 or (not f2 and not u2 and not ((vr2.get('verified') or 0) >= 1 and vr2.get('errors') == 0)):
+                continue   # the isolated run could not be made (ambiguous name, tool error): keep the first verdict
+            rechecked.add(addr)
+            for r2 in f2:
+                confirmed_keys.add(ob_key(unit, r2))
+            unstable.append(dict(recheck=addr, failures_first_run=len([r for r in fails if r.get('addr') == addr]),
+                                 failures_isolated_run=len(f2), undecided_isolated_run=len(u2)))
+            for r2 in u2:
+                und.append(r2)
+        kept = []
+        for rec in fails:
+            if rec.get('addr') in rechecked and ob_key(unit, rec) not in confirmed_keys:
+                continue
+            kept.append(rec)
+        fails = kept
+        res = dict(res, diags=[d for d in res['diags']])   # diagnostics stay as reported by the first run
+        res['recheck_dropped'] = True
     wall = time.time() - t0
     try:
-        json.dump(dict(res=res, unstable=unstable, wall=wall), open(cfile, "w"))
+        json.dump(dict(res=res, unstable=unstable, wall=wall, fails_keys=[ob_key(unit, r) for r in fails]), open(cfile, "w"))
     except Exception:
         pass
     return dict(res=res, fails=fails, undecided=und, hard=hard,
